@@ -324,6 +324,13 @@ fn enumerate_ctors(_t: Tier, shard: usize, nshards: usize, f: &mut dyn FnMut(Cas
             for k in 0..std::cmp::min(if n >= 3 { 64 } else { 1usize << (1usize << n) }, 64) {
                 ops.push(Op::AllFunctionsNth(k));
             }
+            if n <= 3 {
+                // at and beyond the end of the enumeration: one, two, four times the function space
+                let space = 1usize << (1usize << n);
+                for k in [space - 1, space, space + 1, 2 * space - 1, 2 * space, 2 * space + 1, 3 * space, 4 * space, 4 * space + 1, 1024, 1025] {
+                    ops.push(Op::AllFunctionsNth(k));
+                }
+            }
             for op in ops {
                 if !sc.mine() {
                     continue;
